@@ -15,6 +15,7 @@ import (
 	"bytes"
 	"math/big"
 	"testing"
+	"testing/iotest"
 
 	"github.com/oasisprotocol/curve25519-voi/curve/scalar"
 	"github.com/oasisprotocol/curve25519-voi/internal/field"
@@ -287,10 +288,15 @@ func c11CheckDec(c c11DecCase) h.Result {
 		}
 	}
 	// byte comparison of compressed forms: differs from a one-bit neighbour
-	nb := cp
-	nb[c.K*8+3] ^= 0x10
-	if cp.Equal(&nb) != 0 || cp.Equal(&cp) != 1 {
-		r.Fail("CompressedRistretto.Equal:wrong", "a=%x b=%x", cp[:], nb[:])
+	for i := 0; i < 32; i++ {
+		nb := cp
+		nb[i] ^= 1 << uint((i+c.K)%8)
+		if cp.Equal(&nb) != 0 || nb.Equal(&cp) != 0 {
+			r.Fail("CompressedRistretto.Equal:wrong", "a=%x b=%x", cp[:], nb[:])
+		}
+	}
+	if cp.Equal(&cp) != 1 {
+		r.Fail("CompressedRistretto.Equal:wrong", "a=b=%x", cp[:])
 	}
 
 	if !bytes.Equal(in, c.In) {
@@ -816,6 +822,14 @@ func c11CheckUni(c c11UniCase) h.Result {
 		r.Fail("RistrettoPoint.SetRandom:error", "err=%v", err)
 	} else if g := c11Compress(rnd); !bytes.Equal(g, want) || rd.Len() != 2 {
 		r.Fail("RistrettoPoint.SetRandom:wrong-element", "in=%x got=%x want=%x unread=%d", in, g, want, rd.Len())
+	}
+	// ... also from a reader that hands out one byte per Read call
+	r.Eval(1)
+	rnd = c11Marker()
+	if _, err := rnd.SetRandom(iotest.OneByteReader(bytes.NewReader(in))); err != nil {
+		r.Fail("RistrettoPoint.SetRandom:error", "one-byte reader: err=%v", err)
+	} else if g := c11Compress(rnd); !bytes.Equal(g, want) {
+		r.Fail("RistrettoPoint.SetRandom:wrong-element", "one-byte reader: in=%x got=%x want=%x", in, g, want)
 	}
 	if !bytes.Equal(in, c.In) {
 		r.Fail("RistrettoPoint.SetUniformBytes:input-modified", "")
